@@ -29,6 +29,7 @@ class Monitor:
         self.dirty = set()
         self.transit = set()
         self.gseq = 0
+        self.tick = 0              # total order of monitor observations (grants, settles)
         self.counters = Counter()
         self.violations = []
         self.viol_count = Counter()
